@@ -554,3 +554,5 @@ func verifModel_google_golang_org_protobuf_proto_Unmarshal(b []byte, m proto.Mes
 	verifOutside("proto.Unmarshal (protobuf reflection) is outside the encoding")
 	return nil
 }
+
+// floating point (REST X-Server-Timeout) is outside the encoding: a recorded cut when the value is symbolic
